@@ -15,7 +15,7 @@ from ..domains import libs
 LEVEL = 'exploration'
 BOUND = {'quick': 'per distinct scheme file: all ordered pairs over M(2) C/O with '
                   'radicals + adsorbates + curated + undecomposable molecules '
-                  '(~100 molecules); all ordered triples over 12 molecules; '
+                  'and 14 whole-molecule / hydrogen-only species (~115 molecules); all ordered triples over 12 molecules; '
                   'estimates for all pairs over 10 molecules x 9 libraries; all '
                   'ordered pairs over 6 components of 20-24 heavy atoms',
          'thorough': 'the same over M(3) (~330 molecules per scheme)'}
@@ -38,6 +38,13 @@ MANIFEST = dict(
     note='Locality is checked on small components; very large components '
          'only through the curated list.',
     ref='5/C04')
+
+# species that a scheme treats as a whole (one centre pattern spans the
+# molecule, hydrogen-only species, isotopic hydrogen kept as a graph atom) and
+# small species with molecule-level pattern prefixes or same-named group /
+# correction descriptors
+WHOLE = ['[H][H]', '[H]', '[2H]C', 'O=C=O', '[C-]#[O+]', '[C]$[C]', 'O', '[OH]',
+         'OO', 'C1=CC1', 'C1=CCC1', 'C=C=O', 'C#CO', 'OC=CO']
 
 TRIPLE = ['C', 'CC', 'C=C', 'CO', 'C=O', 'C1CC1', 'CC(C)C', 'c1ccccc1', 'CCO',
           'C#C', 'CCl', 'O']
@@ -65,7 +72,7 @@ def desc(S, x):
 def domain(name, tier):
     n = 2 if tier == 'quick' else 3
     gas = list(MD.M(n, ('C', 'O'), 2))
-    out = gas + MD.CURATED_GAS[:30] + MD.OUTSIDE_VOCAB[:4]
+    out = WHOLE + gas + MD.CURATED_GAS[:30] + MD.OUTSIDE_VOCAB[:4]
     metal = SD.SURFACE.get(name)
     if metal:
         out += MD.adsorbates(MD.M(2, ('C', 'O'), 2), metal)[:20]
